@@ -265,3 +265,98 @@ def replay_run(ctx: core.Ctx, obj: dict, owner: str) -> None:
         ctx.case("replay")
     ctx.case("replay-1")
     ctx.case("replay-2")
+
+
+# ---- the repository's own tests, re-run under recording wrappers (code -> spec) -------------------------------------------
+class _FpLike:
+    """The fluid wrapper of a recorded run, rebuilt from its columns with the harness's own piecewise-linear lookups."""
+
+    def __init__(self, d: dict):
+        o = np.argsort(d["pressure"])
+        self._p, self._ms = d["pressure"][o], d["ms"][o]
+        self.m_i = d["m_i"]
+        self.pvt_props = {"m-scaled": d["ms"], "alpha": d["alpha"], "pressure": d["pressure"]}
+        if d.get("density") is not None:
+            self.pvt_props["density"] = d["density"]
+        ok = np.isfinite(d["ms"]) & np.isfinite(d["alpha"])
+        oo = np.argsort(d["ms"][ok])
+        self._xs, self._ys = d["ms"][ok][oo], d["alpha"][ok][oo]
+
+    def m_scaled_func(self, p):
+        return np.interp(np.asarray(p, dtype=float), self._p, self._ms)
+
+    def alpha(self, m):
+        return np.interp(np.asarray(m, dtype=float), self._xs, self._ys, left=float(np.nanmin(self._ys)), right=float(np.nanmax(self._ys)))
+
+
+def repo_test_traces(ctx: core.Ctx, owner: str, tests: list[str], want_resid: bool) -> dict:
+    """Run the named repository tests in a fresh interpreter with the reservoir classes wrapped, and validate every
+    simulation they perform (levels, recovery series) with SchemeTrace.tla.  Returns a summary."""
+    import pickle  # noqa: PLC0415
+    import subprocess  # noqa: PLC0415
+    import sys  # noqa: PLC0415
+
+    from .. import quant  # noqa: PLC0415
+
+    sdir = env.scratch("repotests")
+    try:
+        out = sdir / "records.pkl"
+        p = subprocess.run([sys.executable, "-m", "bbv.drivers.repotests", str(out), *tests], cwd=env.VERIF,
+                           capture_output=True, text=True, timeout=1500, check=False)
+        if not out.exists():
+            raise tlc.MachineryError(f"recording the repository's tests failed:\n{p.stdout[-1500:]}\n{p.stderr[-1500:]}")
+        data = pickle.loads(out.read_bytes())
+    finally:
+        env.cleanup(sdir)
+    events, raws = [], {}
+    for tid, r in enumerate(data["records"], start=1):
+        fp = _FpLike(r["fp"]) if r["kind"] == "single" else None
+        ev, raw = sdrv.level_events(r["kind"], fp, r["time"], r["u"], r["pf"], tid, 0, 300, want_resid)
+        raw["cfg"] = {"repo_test_simulation": tid, "class": r["cls"], "nx": r["nx"], "nt": int(len(r["time"]))}
+        seq = ev[-1]["seq"]
+        nt = len(r["time"])
+        upto = nt
+        if r["pf"] is not None:
+            rises = np.nonzero(np.diff(r["pf"]) > 0)[0]
+            if len(rises):
+                upto = int(rises[0]) + 1
+        for mode, rf in sorted(r["rf"].items()):
+            if mode == "density" and r["kind"] == "ideal":
+                continue
+            ceil_q, hasceil = quant.q(0.0), False
+            if mode == "density" and fp is not None and "density" in fp.pvt_props:
+                o = np.argsort(fp.pvt_props["pressure"])
+                pp, dd = fp.pvt_props["pressure"][o], fp.pvt_props["density"][o]
+                lo_p, pi = float(np.min(r["pf"])), r["pi"]
+                a = max(0, int(np.searchsorted(pp, lo_p, side="right")) - 1)
+                b = min(len(pp) - 1, int(np.searchsorted(pp, pi, side="left")))
+                if not np.all(np.diff(dd[a:b + 1]) > 0):
+                    continue
+                rho_f, rho_i = float(np.interp(lo_p, pp, dd)), float(np.interp(pi, pp, dd))
+                ms = fp.pvt_props["m-scaled"][o]
+                okk = np.isfinite(ms)
+                eps_table = abs(float(np.interp(float(fp.m_scaled_func(lo_p)), ms[okk], dd[okk])) - rho_f) / rho_i
+                ceil_q, hasceil = quant.q(1 - rho_f / rho_i + eps_table), True
+            idx = np.arange(nt) if nt <= 400 else np.unique(np.concatenate([np.arange(50), np.linspace(50, nt - 1, 350).astype(int)]))
+            up = int(np.searchsorted(idx, upto - 1, side="right"))
+            seq += 1
+            ev.append({"tid": tid, "seq": seq, "ev": "RF", "mode": mode, "rf": quant.qs(rf[idx]), "upto": max(1, up),
+                       "ceil": ceil_q, "hasceil": hasceil, "plateauE": -1, "gapE": -1})
+        events += ev
+        raws[tid] = raw
+        ctx.case(f"repo-test-simulation/{tid}/{r['cls']}/nx{r['nx']}/nt{nt}")
+    verdicts = trace.validate(ctx, "SchemeTrace", events, timeout=1500) if events else []
+    by = {(e["tid"], e["seq"]): e for e in events}
+    first: dict = {}
+    for v in verdicts:
+        for cl in v["clauses"]:
+            if cl.startswith(owner + "."):
+                ent = first.setdefault((v["tid"], cl), {"seq": v["seq"], "count": 0})
+                ent["count"] += 1
+    for (tid, cl), ent in sorted(first.items()):
+        e = by[(tid, ent["seq"])]
+        where = f"level {e['i']}" if e["ev"] == "Level" else e["ev"] + " " + str(e.get("mode", ""))
+        ctx.violation(cl, f"{where} (first of {ent['count']} events) of simulation {raws[tid]['cfg']} performed by the repository's own "
+                      f"tests {tests} violates {cl}", replay={"stage": "repotests", "tests": tests, "clause": cl})
+    return {"tests": tests, "pytest_rc": data["pytest_rc"], "simulations": len(data["records"]),
+            "worst_backward_error": max((r["worst_backward_error"] for r in raws.values()), default=0.0)}
